@@ -96,6 +96,22 @@ class Arr:
     def ndim(self):
         return len(self.shape)
 
+    def ravel(self):
+        return Arr(self.dtype, (len(self.flat),), self.flat)
+
+    flatten = ravel
+
+    def reshape(self, *shape):
+        shape = tuple(shape[0]) if len(shape) == 1 and isinstance(shape[0], (tuple, list)) else tuple(shape)
+        n = 1
+        for s in shape:
+            n *= s
+        if -1 in shape:
+            raise Unsupported("reshape -1")
+        if n != len(self.flat):
+            raise ValueError("cannot reshape array")
+        return Arr(self.dtype, shape, self.flat)
+
     def tolist(self):
         if self.dtype.kind in "Mm":
             raise Unsupported("tolist on time arrays")
@@ -237,6 +253,28 @@ class NP:
         if isinstance(x, Arr) and dtype is None:
             return x
         return NP.array(x, dtype=dtype)
+
+    @staticmethod
+    def atleast_1d(x):
+        a = NP.asarray(x)
+        return a if a.shape != () else Arr(a.dtype, (1,), a.flat)
+
+    @staticmethod
+    def atleast_2d(x):
+        a = NP.asarray(x)
+        if len(a.shape) >= 2:
+            return a
+        return Arr(a.dtype, (1, 1) if a.shape == () else (1,) + a.shape, a.flat)
+
+    @staticmethod
+    def ravel(x):
+        a = NP.asarray(x)
+        return Arr(a.dtype, (len(a.flat),), a.flat)
+
+    @staticmethod
+    def squeeze(x):
+        a = NP.asarray(x)
+        return Arr(a.dtype, tuple(s for s in a.shape if s != 1), a.flat)
 
     @staticmethod
     def array(x, dtype=None):
